@@ -31,6 +31,7 @@ def civil_in_range(T, off):
     return in_range(T + off * NS, MIN_DAY * DAY_NS, (MAX_DAY + 1) * DAY_NS - 1)
 
 
+Y2024 = 1704067200
 B = {0: (TS_MIN_S, TS_MAX_S), 1: (-999999999, 999999999), 2: (-OFF_MAX, OFF_MAX)}
 NAMES = ["hours", "minutes", "seconds", "milliseconds", "microseconds", "nanoseconds"]
 
@@ -48,6 +49,14 @@ KERNELS = [
                                                               And(o.some.is_some, o.some.some[0][0].i * NS + o.some.some[0][1].i == T + d, o.some.some[1].i == a[2])))(
                    a[0] * NS + a[1], If(a[3], -1, 1) * (7 * a[4] + a[5]) * DAY_NS)))],
       bounds={**B, 4: (0, LIM["weeks"]), 5: (0, LIM["days"])}, split=(0, 128), timeout=900, tier="deep"),
+    K("c20::k_zoned_fixed_add_mixed", pre=lambda a: And(c02.valid_ts(a[0], a[1]), c02.off_ok(a[2]), in_range(a[0], Y2024, Y2024 + 366 * 86400 - 1),
+                                                        in_range(a[4], 0, 40), in_range(a[5], 0, 100), in_range(a[6], 0, 10000000000), in_range(a[7], 0, 5000000000)),
+      claims=[("Zoned(fixed zone) + span mixing days with hours / microseconds / nanoseconds [instant in 2024, days <= 40, hours <= 100, "
+               "microseconds <= 1e10, nanoseconds <= 5e9]: the instant moves by exactly days*24 h + the time units, zone kept",
+               lambda a, o: And(o.is_some, (lambda T, d: And(o.some.is_some, o.some.some[0][0].i * NS + o.some.some[0][1].i == T + d, o.some.some[1].i == a[2]))(
+                   a[0] * NS + a[1], If(a[3], -1, 1) * (a[4] * DAY_NS + a[5] * HOUR_NS + a[6] * 1000 + a[7]))))],
+      bounds={0: (Y2024, Y2024 + 366 * 86400 - 1), 1: (-999999999, 999999999), 2: (-OFF_MAX, OFF_MAX), 4: (0, 40), 5: (0, 100), 6: (0, 10000000000), 7: (0, 5000000000)},
+      split=(0, 8), timeout=300),
     K("c20::k_zoned_fixed_start_of_day", pre=lambda a: And(c02.valid_ts(a[0], a[1]), c02.off_ok(a[2])),
       claims=[("start_of_day(fixed zone) == the instant minus the civil time of day (civil midnight), when representable",
                lambda a, o: And(o.is_some, Implies(o.some.is_some, And(
